@@ -10,7 +10,7 @@
    any queue implementation meeting the contract and any triggers. Logs are newest-first. *)
 From Coq Require Import ZArith List Bool String.
 Require Import QzSched.Gen.Params QzSched.SchedModel QzSched.ListQueue QzSched.Triggers QzSched.LtsDefs
-               QzSched.FetchProofs QzSched.C03Proofs QzSched.ExamplesC09 QzSched.Examples.
+               QzSched.FetchProofs QzSched.C03Proofs QzSched.ExampleDefs QzSched.Examples.
 Import ListNotations.
 Open Scope list_scope.
 Open Scope Z_scope.
